@@ -218,7 +218,8 @@ func c04BFS(r *Run, depth, shard int) {
 	genesisSupply := math.ZeroInt()
 
 	bfs := &BFS{
-		Scn: scn, MaxDepth: depth, ValidatePaths: shard == 0, RootShard: shard, RootShards: c04Shards,
+		SeqDepth: 2,
+		Scn:      scn, MaxDepth: depth, ValidatePaths: shard == 0, RootShard: shard, RootShards: c04Shards,
 		Init: func(r *Run, w *World, root *Node) {
 			m := c04Model{Minted: map[string]string{}, Burned: big.NewInt(0)}
 			root.Model, root.MKey = m, m.key()
